@@ -266,6 +266,8 @@ Fixpoint merge_adjacent (l : list tsty) : list tsty :=
   end.
 
 Definition inter_of (l : list tsty) : tsty := match l with [x] => x | _ => TInter l end.
+(* an operand that is itself an intersection contributes its operands (intersection is associative) *)
+Definition flat_inter (l : list tsty) : list tsty := flat_map (fun x => match x with TInter l' => l' | _ => [x] end) l.
 
 Fixpoint norm (t : tsty) : tsty :=
   match t with
@@ -280,7 +282,7 @@ Fixpoint norm (t : tsty) : tsty :=
   | TMapped k v => TMapped (norm k) (norm v)
   | TResult k v => TResult (norm k) (norm v)
   | TMerged u => match norm u with
-                 | TInter l => inter_of (merge_adjacent l)
+                 | TInter l => inter_of (merge_adjacent (flat_inter l))
                  | u' => u'
                  end
   | TUnwrap u => match norm u with
